@@ -273,11 +273,11 @@ Definition cur_wh (l : loc) : option whnd :=
   match nth_error (wsl l) (sl l) with Some (Some h) => Some h | _ => None end.
 Definition cur_sn (l : loc) : option snap :=
   match nth_error (ssl l) (sl l) with Some (Some s) => Some s | _ => None end.
-(* append an edit to the current write handle (ghost) *)
-Definition add_edit (l : loc) (e : edit) : list (option whnd) :=
-  match cur_wh l with
-  | Some h => upd (wsl l) (sl l) (Some (WH (hv h) (hbase h) (hed h ++ [e])))
-  | None => wsl l
+(* append an edit to the write handle in slot s (ghost) *)
+Definition add_edit (w : list (option whnd)) (s : nat) (e : edit) : list (option whnd) :=
+  match nth_error w s with
+  | Some (Some h) => upd w s (Some (WH (hv h) (hbase h) (hed h ++ [e])))
+  | _ => w
   end.
 
 Definition tstep (t c : nat) (g : glob) (l : loc) : option (glob * loc * list ev) :=
@@ -404,14 +404,14 @@ Definition tstep (t c : nat) (g : glob) (l : loc) : option (glob * loc * list ev
   | HW_wb => let '(g1, es) := wr_begin g (cv l) in Some (g1, goto HW_we, es)
   | HW_we =>
     let '(g1, es) := wr_end g (cv l) (tmp l) in
-    Some (g1, set_wsl l Idle (add_edit l (ESet (tmp l))), es ++ [ret_ev 0])
+    Some (g1, set_wsl l Idle (add_edit (wsl l) (sl l) (ESet (tmp l))), es ++ [ret_ev 0])
   (* h->p.incr() = write(read() + 1) *)
   | HI_rb => let '(g1, es) := rd_begin g (cv l) in Some (g1, goto HI_re, es)
   | HI_re => let '(g1, es) := rd_end g (cv l) in Some (g1, set_tmp l HI_wb (content (heap g (cv l))), es)
   | HI_wb => let '(g1, es) := wr_begin g (cv l) in Some (g1, goto HI_we, es)
   | HI_we =>
     let '(g1, es) := wr_end g (cv l) (tmp l + 1) in
-    Some (g1, set_wsl l Idle (add_edit l EIncr), es ++ [ret_ev 0])
+    Some (g1, set_wsl l Idle (add_edit (wsl l) (sl l) EIncr), es ++ [ret_ev 0])
   (* h->p.read() *)
   | HR_rb => let '(g1, es) := rd_begin g (cv l) in Some (g1, goto HR_re, es)
   | HR_re => let '(g1, es) := rd_end g (cv l) in Some (g1, goto Idle, es ++ [ret_ev (content (heap g (cv l)))])
